@@ -400,6 +400,9 @@ def handle (op : String) (args : List String) (obs : String) : Option Verdict :=
   | "playerlist.locks" =>
     some { model := "ok", spec := if obs == "ok" then none
                                   else some ("a PlayerList method touches `players` without Lock(); defer Unlock(): " ++ obs) }
+  | "queue.signals" =>
+    some { model := "ok", spec := if obs == "ok" then none
+                                  else some ("LinkedListQueue does not signal unconditionally after the append / broadcast on Close / wait in a loop (the model's pushSignal, closeBroadcast, pullWait steps assume it): " ++ obs) }
   | "race.detector" => some { model := "enabled" }
   | "race.report" => some { model := "none" }
   | _ => none
